@@ -431,6 +431,103 @@ fn deep_text(rng: &mut Rng) -> String {
     s
 }
 
+const FAUCET_ADDR: &str = "component_sim1cptxxxxxxxxxfaucetxxxxxxxxx000527798379xxxxxxxxxhkrefh";
+const TWO_BYTE: &[char] = &['é', 'ß', 'Ω', 'ñ', 'ж', '\u{a0}'];
+const THREE_BYTE: &[char] = &['中', '€', '∑', '한', '\u{2028}', '\u{fffd}'];
+const FOUR_BYTE: &[char] = &['\u{1f600}', '\u{1d11e}', '\u{10ffff}', '\u{20000}', '\u{1f1e9}'];
+
+fn wide_run(rng: &mut Rng, n: usize) -> String {
+    let mode = rng.below(4);
+    (0..n)
+        .map(|_| match mode {
+            0 => *rng.pick(TWO_BYTE),
+            1 => *rng.pick(THREE_BYTE),
+            2 => *rng.pick(FOUR_BYTE),
+            _ => match rng.below(3) {
+                0 => *rng.pick(TWO_BYTE),
+                1 => *rng.pick(THREE_BYTE),
+                _ => *rng.pick(FOUR_BYTE),
+            },
+        })
+        .collect()
+}
+
+/// LF text of 8-40 lines: lines full of multi-byte characters (comments, long string literals in
+/// valid instructions) first, then plain valid lines, then ONE injected error. The diagnostics
+/// excerpt starts 5 lines above the error: the heavy lines sit `gap` lines above it, i.e. outside
+/// the excerpt (gap >= 6: their characters are only *counted*) or inside it (gap <= 5). The
+/// surplus of bytes over chars in the skipped lines (50-2000 chars of 2-4 bytes) is far larger
+/// than the excerpt, so a byte/char mix-up in the skipped-line arithmetic cannot stay in range.
+/// Returns (text, heavy lines are outside the excerpt).
+fn multibyte_above_excerpt(rng: &mut Rng) -> (String, bool) {
+    let mut lines: Vec<String> = vec![];
+    let plain = ["DROP_ALL_PROOFS;", "DROP_AUTH_ZONE_PROOFS;", "DROP_NAMED_PROOFS;", "", "# plain comment", "DROP_AUTH_ZONE_REGULAR_PROOFS;"];
+    // optional plain preamble
+    for _ in 0..rng.below(3) {
+        lines.push((*rng.pick(&plain)).to_string());
+    }
+    let total_wide = *rng.pick(&[50usize, 80, 150, 300, 600, 1200, 2000]);
+    let heavy = rng.range(1, 4) as usize;
+    for h in 0..heavy {
+        let n = if h + 1 == heavy { total_wide - (total_wide / heavy) * (heavy - 1) } else { total_wide / heavy };
+        let w = wide_run(rng, n.max(1));
+        lines.push(match rng.below(5) {
+            0 | 1 => format!("# {w}"),
+            2 => format!("CALL_METHOD Address(\"{FAUCET_ADDR}\") \"f\" \"{w}\";"),
+            3 => format!("SET_METADATA Address(\"{FAUCET_ADDR}\") \"k\" Enum<Metadata::String>(\"{w}\");"),
+            _ => format!("CALL_METHOD Address(\"{FAUCET_ADDR}\") \"{w}\" Tuple(\"{w}\", 1u8); # {w}"),
+        });
+    }
+    // distance between the last heavy line and the faulty line
+    let gap = *rng.pick(&[3usize, 4, 5, 6, 6, 6, 7, 7, 8, 10, 14, 20]);
+    for _ in 1..gap {
+        lines.push((*rng.pick(&plain)).to_string());
+    }
+    let indent = " ".repeat(rng.below(4) as usize);
+    let (bad, eof_kind): (String, bool) = match rng.below(16) {
+        // lexer
+        0 => ("DROP_ALL_PROOFS; ~".into(), false),
+        1 => ("DROP_ALL_PROOFS; 1u7;".into(), false),
+        2 => (format!("CALL_METHOD Address(\"{FAUCET_ADDR}\") \"\\q\";"), false),
+        3 => (format!("CALL_METHOD Address(\"{FAUCET_ADDR}\") \"f\" 300u8;"), false),
+        4 => (format!("CALL_METHOD Address(\"{FAUCET_ADDR}\") \"unterminated"), true),
+        // parser
+        5 => ("FOO;".into(), false),
+        6 => ("DROP_PROOF;".into(), false),
+        7 => (format!("CALL_METHOD Address() \"f\";"), false),
+        8 => (format!("CALL_METHOD Address(\"{FAUCET_ADDR}\") \"f\" Tuple(1u8"), true),
+        9 => (format!("CALL_METHOD Address(\"{FAUCET_ADDR}\") \"f\""), true),
+        10 => (format!("CALL_METHOD Address(\"{FAUCET_ADDR}\") \"f\" Enum<Nope::Nope>();"), false),
+        // generator
+        11 => ("DROP_PROOF Proof(\"nope\");".into(), false),
+        12 => ("CALL_METHOD Address(\"bad\") \"f\";".into(), false),
+        13 => ("RETURN_TO_WORKTOP Bucket(5u32);".into(), false),
+        14 => (format!("CALL_METHOD Address(\"{FAUCET_ADDR}\") \"f\" Bytes(\"zz\") Decimal(\"x\");"), false),
+        _ => (format!("CALL_METHOD Address(\"{FAUCET_ADDR}\") \"f\" Array<U8>(1u16);"), false),
+    };
+    lines.push(format!("{indent}{bad}"));
+    // what follows the error: nothing (error at the very end), or a few plain lines
+    let at_end = eof_kind || rng.chance(1, 3);
+    let mut text = lines.join("\n");
+    if !at_end {
+        text.push('\n');
+        let tail = rng.range(1, 8);
+        for _ in 0..tail {
+            text.push_str(*rng.pick(&plain));
+            text.push('\n');
+        }
+    } else if rng.bool() {
+        text.push('\n');
+    }
+    // pad to at least 8 lines in front if needed (keeps the gap)
+    let have = text.lines().count();
+    if have < 8 {
+        let pad: String = (0..8 - have).map(|_| "DROP_ALL_PROOFS;\n").collect();
+        text = format!("{pad}{text}");
+    }
+    (text, gap >= 6)
+}
+
 fn long_line_text(rng: &mut Rng) -> String {
     let n = *rng.pick(&[1_000usize, 10_000, 70_000]);
     let filler: String = match rng.below(5) {
@@ -497,7 +594,11 @@ pub fn gen_text(rng: &mut Rng) -> (&'static str, String, Kind) {
             let m = if rng.bool() { mutate_chars(rng, &t, n) } else { mutate_tokens(rng, &t, n) };
             ("mutant-lf", m, k)
         }
-        58..=89 => {
+        58..=63 => {
+            let (t, outside) = multibyte_above_excerpt(rng);
+            (if outside { "multibyte-above-excerpt:outside-window" } else { "multibyte-above-excerpt:inside-window" }, t, any_kind)
+        }
+        64..=89 => {
             let (t, k) = seed_text(rng);
             let n = rng.range(1, 5) as usize;
             let m = if rng.bool() { mutate_chars(rng, &t, n) } else { mutate_tokens(rng, &t, n) };
@@ -573,11 +674,13 @@ pub fn spec() -> Spec {
     .floor("error_with_cr_in_text", 4_000)
     .floor("error_with_non_ascii_in_text", 4_000)
     .floor("error_classes_seen", 40)
+    .floor("text:multibyte-above-excerpt:outside-window", 5_000)
+    .floor("error:multibyte-above-excerpt:outside-window", 4_000)
     .floor("distinct_nontrivial", 20_000)
     .explain(
         "Each case = (text, kind, blob provider): 2 compiles, 2 x 2 renderings of the error, 1 pretty-error call. Texts: random bytes / scalars, token \
          soup from the lexer+parser vocabulary, decompiled valid manifests with 1-5 character or token mutations, LF / CRLF / CR / NEL / U+2028 / mixed \
-         line endings, multi-byte characters next to the edit, deep nesting around the parser limit, very long lines. distinct_nontrivial counts \
+         line endings, multi-byte characters next to the edit, 8-40 line texts whose first lines carry 50-2000 multi-byte characters 3-20 lines above one injected error (outside / inside the 5-line excerpt window), deep nesting around the parser limit, very long lines. distinct_nontrivial counts \
          distinct (text, kind).",
     )
 }
@@ -610,6 +713,10 @@ pub fn run(args: &Args) -> Report {
                 } else {
                     let fam = r.outcome.split(':').next().unwrap_or("?").to_string();
                     shard.count(&format!("outcome_family:{fam}"));
+                    if class.starts_with("multibyte-above-excerpt") {
+                        shard.count(&format!("error:{class}"));
+                        shard.seen("multibyte_above_excerpt_error_classes", &r.outcome);
+                    }
                     if has_cr {
                         shard.count("error_with_cr_in_text");
                     }
